@@ -284,4 +284,48 @@ example : (⟨2, ["page not available"]⟩ : Part).wf := by simp [Part.wf]
 
 end Flow
 
+section Alloc
+open Kdf.Model.ErrFlow
+
+/-- `ctx_malloc` keeps its contract for EVERY size (no size is refused silently): a failure leaves a message, and the
+newest link names the object and the size that was asked for -/
+theorem ctxMalloc_disciplined (size : Nat) (desc errnoText : String) (got : Bool) :
+    Disciplined (ctxMalloc size desc got errnoText []) := by
+  cases got <;> simp [Disciplined, ctxMalloc, setErrorSystem, kdumpSYSTEM, Kdf.Gen.Status.kdumpCodes]
+
+theorem ctxMalloc_fail_message (size : Nat) (desc errnoText : String) (c : Chain) :
+    (ctxMalloc size desc false errnoText c).1 = kdumpSYSTEM ∧ (ctxMalloc size desc false errnoText c).1 ≠ 0 ∧
+    (ctxMalloc size desc false errnoText c).2.head? = some ("Cannot allocate " ++ desc ++ " (" ++ toString size ++ " bytes)") := by
+  unfold ctxMalloc setErrorSystem
+  refine ⟨by simp, by simp [kdumpSYSTEM, Kdf.Gen.Status.kdumpCodes], ?_⟩
+  by_cases h : c = [] <;> simp [h]
+
+/-- a successful allocation does not touch the error string -/
+theorem ctxMalloc_ok_silent (size : Nat) (desc errnoText : String) (c : Chain) :
+    ctxMalloc size desc true errnoText c = (0, c) := by simp [ctxMalloc]
+
+/-- setting the OS type on an s390x dump whose os_info claims a VMCOREINFO of `size` bytes: for every size, when the
+allocation fails the call fails with a non-empty chain that names the buffer and the size; otherwise the outcome is
+that of the rest of the hook -/
+theorem s390OsInfoAlloc_story (size : Nat) (errnoText : String) (rest : Part) (c : Chain) :
+    s390OsInfoAlloc size false errnoText rest c =
+      (kdumpSYSTEM, ["Cannot allocate VMCOREINFO buffer (" ++ toString size ++ " bytes)", errnoText]) ∧
+    s390OsInfoAlloc size true errnoText rest c = rest.apply [] := by
+  constructor
+  · simp [s390OsInfoAlloc, ctxMalloc, setErrorSystem, clearError, kdumpSYSTEM, Kdf.Gen.Status.kdumpCodes]
+  · simp [s390OsInfoAlloc, ctxMalloc, clearError]
+
+theorem s390OsInfoAlloc_disciplined (size : Nat) (got : Bool) (errnoText : String) (rest : Part) (h : rest.wf) (c : Chain) :
+    Disciplined (s390OsInfoAlloc size got errnoText rest c) := by
+  cases got
+  · rw [(s390OsInfoAlloc_story size errnoText rest c).1]
+    simp [Disciplined, kdumpSYSTEM, Kdf.Gen.Status.kdumpCodes]
+  · rw [(s390OsInfoAlloc_story size errnoText rest c).2]
+    exact part_disciplined rest h
+
+example : s390OsInfoAlloc (2 ^ 63) false "Cannot allocate memory" Part.ok ["stale"]
+    = (1, ["Cannot allocate VMCOREINFO buffer (9223372036854775808 bytes)", "Cannot allocate memory"]) := by decide
+
+end Alloc
+
 end Kdf.Props.C16
